@@ -703,12 +703,12 @@ func (obj *SparseInt32Matrix) ITERATOR_FROM(i, j int) *SparseInt32MatrixIterator
   return &r
 }
 func (obj *SparseInt32Matrix) JOINT_ITERATOR(b ConstMatrix) *SparseInt32MatrixJointIterator {
-  r := SparseInt32MatrixJointIterator{obj.ITERATOR(), b.ConstIterator(), -1, -1, Int32{}, nil}
+  r := SparseInt32MatrixJointIterator{obj.ITERATOR(), b.ConstIterator(), -1, -1, Int32{}, nil, false}
   r.Next()
   return &r
 }
 func (obj *SparseInt32Matrix) JOINT3_ITERATOR(b, c ConstMatrix) *SparseInt32MatrixJoint3Iterator {
-  r := SparseInt32MatrixJoint3Iterator{obj.ITERATOR(), b.ConstIterator(), c.ConstIterator(), -1, -1, Int32{}, nil, nil}
+  r := SparseInt32MatrixJoint3Iterator{obj.ITERATOR(), b.ConstIterator(), c.ConstIterator(), -1, -1, Int32{}, nil, nil, false}
   r.Next()
   return &r
 }
@@ -738,13 +738,13 @@ type SparseInt32MatrixJointIterator struct {
   i, j int
   s1 Int32
   s2 ConstScalar
+  ok bool
 }
 func (obj *SparseInt32MatrixJointIterator) Index() (int, int) {
   return obj.i, obj.j
 }
 func (obj *SparseInt32MatrixJointIterator) Ok() bool {
-  return !(obj.s1.ptr == nil || obj.s1.GetInt32() == int32(0)) ||
-         !(obj.s2 == nil || obj.s2.GetInt32() == int32(0))
+  return obj.ok
 }
 func (obj *SparseInt32MatrixJointIterator) Next() {
   ok1 := obj.it1.Ok()
@@ -766,6 +766,9 @@ func (obj *SparseInt32MatrixJointIterator) Next() {
       obj.s2 = obj.it2.GetConst()
     }
   }
+  // the iteration ends when no iterator delivered an element, elements
+  // with value zero must not terminate it
+  obj.ok = obj.s1.ptr != nil || obj.s2 != nil
   if obj.s1.ptr != nil {
     obj.it1.Next()
   }
@@ -800,6 +803,7 @@ func (obj *SparseInt32MatrixJointIterator) Clone() *SparseInt32MatrixJointIterat
   r.j = obj.j
   r.s1 = obj.s1
   r.s2 = obj.s2
+  r.ok = obj.ok
   return &r
 }
 func (obj *SparseInt32MatrixJointIterator) CloneJointIterator() MatrixJointIterator {
@@ -818,14 +822,13 @@ type SparseInt32MatrixJoint3Iterator struct {
   s1 Int32
   s2 ConstScalar
   s3 ConstScalar
+  ok bool
 }
 func (obj *SparseInt32MatrixJoint3Iterator) Index() (int, int) {
   return obj.i, obj.j
 }
 func (obj *SparseInt32MatrixJoint3Iterator) Ok() bool {
-  return !(obj.s1.ptr == nil || obj.s1.GetInt32() == 0.0) ||
-         !(obj.s2 == nil || obj.s2.GetInt32() == 0.0) ||
-         !(obj.s3 == nil || obj.s3.GetInt32() == 0.0)
+  return obj.ok
 }
 func (obj *SparseInt32MatrixJoint3Iterator) Next() {
   ok1 := obj.it1.Ok()
@@ -863,6 +866,9 @@ func (obj *SparseInt32MatrixJoint3Iterator) Next() {
       obj.s3 = obj.it3.GetConst()
     }
   }
+  // the iteration ends when no iterator delivered an element, elements
+  // with value zero must not terminate it
+  obj.ok = obj.s1.ptr != nil || obj.s2 != nil || obj.s3 != nil
   if obj.s1.ptr != nil {
     obj.it1.Next()
   }
